@@ -1,8 +1,11 @@
 #!/bin/bash
 # development aid: confirm a seeded change delivered by a sub-agent, then test the checks against it.
-# usage: lib/seedconfirm.sh <PROP> <A|B> [check ids... default PROP]
+# usage: [MUT=/tmp/mut2] lib/seedconfirm.sh <PROP> <A|B> [check ids... default PROP]
+# seeds of the second round (MUT=/tmp/mut2) are stored as <PROP>-C / <PROP>-D
 P=$1; V=$2; shift 2; CHECKS=${@:-$P}
-W=/tmp/mut/$P; D=/tmp/mut/$P-demo
+MUT=${MUT:-/tmp/mut}
+W=$MUT/$P; D=$MUT/$P-demo
+L=$V; if [ "$MUT" != /tmp/mut ]; then case $V in A) L=C;; B) L=D;; esac; fi
 export GOFLAGS=-mod=mod GOPROXY=off
 cd $W || exit 2
 git checkout -q -- . ; git apply --check $D/$V.diff || { echo "CONFIRM $P-$V: diff does not apply"; exit 2; }
@@ -19,5 +22,5 @@ case "$suite" in ok*) ;; *) echo "suite does not pass with the change"; exit 1;;
 case "$without" in ok*) ;; *) echo "demo does not pass without the change"; exit 1;; esac
 # does it still apply to the current /repo?
 out=$(/verif/lib/seedtest.sh $D/$V.diff $CHECKS 2>&1); echo "$out" | grep "RESULT\|does not apply\|INCONCLUSIVE" 
-S=/verif/seeded/$P-$V; mkdir -p $S; cp $D/$V.diff $S/patch.diff; rm -rf $S/demo; mkdir -p $S/demo; cp $D/$V/*.go $S/demo/ 2>/dev/null
+S=/verif/seeded/$P-$L; mkdir -p $S; cp $D/$V.diff $S/patch.diff; rm -rf $S/demo; mkdir -p $S/demo; cp $D/$V/*.go $S/demo/ 2>/dev/null
 echo "$out" | grep RESULT > $S/check_results.txt
